@@ -673,16 +673,20 @@ FUNCTION_CLASSES = [
 ]
 
 
-def eval_method_concrete(ctx, modname, cls, mname, mgr_mod, mgr_cls):
+def eval_method_concrete(ctx, modname, cls, mname, mgr_mod, mgr_cls,
+                         nodes=(2, 3)):
     """An operator method of a Python `Function` class run by the
-    interpreter on two handles with the node numbers 2 and 3 (the way
+    interpreter on two handles with the node numbers `nodes` (the way
     `eval_apply_concrete` runs `apply`): follows operand lists and
-    unpacked arguments, which the symbolic evaluator does not."""
+    unpacked arguments, which the symbolic evaluator does not.  The
+    second number may be the first one with either sign: the operands
+    are then the same function, or complements of each other."""
     from .. import interp
     from . import models
     m = ctx.program.func(f'{modname}.{cls}.{mname}')
     made = dict()
-    codes = {2: S, 3: O}
+    codes = {abs(nodes[0]): S}
+    codes.setdefault(abs(nodes[1]), O)
 
     def decode(x):
         if isinstance(x, interp.Sym) and x.attrs is not None and \
@@ -729,10 +733,10 @@ def eval_method_concrete(ctx, modname, cls, mname, mgr_mod, mgr_cls):
     stubs = models.ClassStubs(ctx.program, f'{modname}.{cls}', extra={
         'apply': apply, 'Function': function, '_wrap': function,
         '__contains__': lambda mach, c, a, k: True}, skip={'apply'})
-    env = {'self': handle(2)}
+    env = {'self': handle(nodes[0])}
     params = [p for p in m.params if p != 'self']
     if params:
-        env[params[0]] = handle(3)
+        env[params[0]] = handle(nodes[1])
     resolver = interp.ModuleEnv(ctx.program, modname, stubs)
     try:
         out, _ = interp.run_function(m.node, env, stubs, resolver)
@@ -903,10 +907,15 @@ def r_optab_functions(which):
                 what = f'operator method {mname}'
                 total += 1
                 try:
-                    v = ev.call_function(m.node, argvals)
+                    try:
+                        v = ev.call_function(m.node, argvals)
+                    except me.Undecided as e:
+                        if kind != 'table' or unit.endswith('.pyx'):
+                            raise
+                        v = ('unknown', str(e))
                     if kind == 'table' and not unit.endswith('.pyx') \
                             and classify(v, ('self', 'other'))[0] in (
-                                'undecided', 'raise'):
+                                'undecided', 'raise', 'either'):
                         # unpacked operand lists: the interpreter
                         try:
                             v = eval_method_concrete(
@@ -928,6 +937,32 @@ def r_optab_functions(which):
                 except me.Undecided as e:
                     R.undecided('R-OPTAB', m.qualname, what, str(e))
                     continue
+                if ok and kind == 'table' and not unit.endswith('.pyx') \
+                        and len(params) > 1:
+                    # the meaning must not depend on the node numbers of
+                    # the operands: other numberings, and operands that
+                    # are the same node up to the complement mark
+                    for nodes, other in (((3, 2), O), ((2, -2), ('not', S)),
+                                         ((2, 2), S), ((7, -7), ('not', S))):
+                        try:
+                            v2 = eval_method_concrete(
+                                ctx, modname, cls, mname, mgr_mod, mgr_cls,
+                                nodes)
+                            got2 = classify(v2, ('self', 'other'))
+                        except me.Undecided:
+                            continue
+                        exp2 = ('table', me.table(
+                            _subst(want, {'other': other}),
+                            ('self', 'other')))
+                        if got2[0] == 'undecided' or got2 == exp2:
+                            continue
+                        ok = False
+                        shown = (f'{render(got2)} when the operands are '
+                                 f'the nodes {nodes[0]} and {nodes[1]}, '
+                                 f'where {render(exp2)} is meant (the '
+                                 'result depends on the node numbers, or '
+                                 'ignores the complement mark)')
+                        break
                 if ok:
                     R.holds('R-OPTAB', m.qualname, f'{what}: {shown}')
                 else:
